@@ -320,6 +320,15 @@ def expand(job):
                     if fg["zform"] == "hh":
                         continue      # "+hh" alone would drop the minutes of the point's own offset
                 case["pf"] = {"kind": "iso", "g": fg, "fmt": dtxt + "T" + ttxt + ztxt, "lz": lz}
+            elif y < 0.40:
+                # a date-only print format, complete or reduced (year-month, year, year-week ...), in any representation
+                fg = pick_g(rnd, m, [f_ for f_ in forms if f_["wf"] and f_["tform"] == "none" and f_["dform"] != "c"])
+                fg["ds"] = []
+                dtxt = {"cal-b": "CCYYMMDD", "cal-e": "CCYY-MM-DD", "ord-b": "CCYYDDD", "ord-e": "CCYY-DDD", "week-b": "CCYYWwwD", "week-e": "CCYY-Www-D",
+                        "ym": "CCYY-MM", "y": "CCYY", "yw-b": "CCYYWww", "yw-e": "CCYY-Www"}[fg["dform"]]
+                if fg["xd"]:
+                    dtxt = "+X" + dtxt
+                case["pf"] = {"kind": "iso", "g": fg, "fmt": dtxt, "lz": None}
             elif y < 0.45:
                 g2 = dict(case["g"], dform="cal-e", tform="hms-e", zform="hhmm", xd=0, ds=[])
                 from harness import refcal as R_
